@@ -173,6 +173,8 @@ def coerce(v, t):
         raise Unsupported('coerce %s -> %s' % (v.t, t))
     if t is TInt and v.t is TBool:
         return V(TInt, z3.If(v.z, 1, 0))
+    if t is TFloat and v.t is TInt:
+        return V(TFloat, z3.Const(fresh_name('flt'), TFloat.sort()), py=('intfloat', v.z))
     if isinstance(t, TPkt) and isinstance(v.t, TPkt):
         return V(t, v.z)
     if isinstance(t, TRef) and isinstance(v.t, TPkt) and t.cls == 'pkt:' + v.t.layers[0]:
